@@ -2,7 +2,7 @@ from checks_common import *  # noqa: F401,F403
 
 CHECK = {
     "harness": "c16_window_stats.cpp",
-    "srcs": ["src/monitoring/OnlineAverage.cpp", "src/monitoring/OnlineVariance.cpp"],   # the ring is header-only
+    "srcs": MONITORING,   # OnlineAverage.cpp, OnlineVariance.cpp (+ RateMonitoring.cpp, unused here); the ring is header-only
     "flavours": ["asan"],
     "quick": {"shards": 4, "timeout": 600},
     "thorough": {"shards": 16, "timeout": 3600},
@@ -12,11 +12,13 @@ CHECK = {
                             "precision_m_1", "ring_capacity_non_pow2", "ring_capacity_pow2",
                             "average_history_wrapped", "average_history_reset_mid_window", "average_history_reset_then_data",
                             "variance_history_wrapped", "variance_history_reset_mid_window", "variance_history_reset_then_data",
-                            "ring_history_wrapped", "ring_history_reset_mid_window", "ring_history_reset_then_data"],
+                            "ring_history_wrapped", "ring_history_reset_mid_window", "ring_history_reset_then_data",
+                            "exh_average_history_reset_mid_window", "exh_variance_history_reset_mid_window",
+                            "exh_ring_history_reset_mid_window", "exh_ring_history_wrapped"],
     "required_oracles": ["average.vs_exact_mean", "variance.vs_exact_unbiased", "availability.iff_window_full",
                          "ring.size_is_min_n_capacity", "ring.kth_most_recent"],
     "required_counters": ["average_updates", "average_resets", "variance_updates", "variance_resets",
-                          "ring_updates", "ring_resets", "exhaustive_sequences"],
+                          "ring_updates", "ring_resets", "exhaustive_sequences", "samples_generated"],
     "rule": "case = one object (OnlineAverage W 1..64 | OnlineVariance W 2..64 | RingOfEigenVector capacity 1..16 over "
             "Vector2d/3d/4d/6d/2f/3f) driven through one generated history of update/reset (append/clear) of length 0..10W, "
             "checked against the reference model after EVERY operation; precision in {1, .5, .25, .1, .01, 1e-3, 1e-4, 1e-5, "
